@@ -500,7 +500,87 @@ def parse_kernel(src, fname, stride_ty):
         raise ParseError("%s: a pointer is cast to an integer (address-dependent code is not modelled)" % fname)
     if nb.count("assert_eq!(seq.len(),dst.len());") != 1 or nb.find("assert_eq!(seq.len(),dst.len());") > nb.find("unsafe{"):
         raise ParseError("%s: assert_eq!(seq.len(), dst.len()) is not the first statement before the unsafe block" % fname)
+    # Finally the whole body, modulo white space/comments and the two holes the proofs are
+    # parametric in (loop bound `<`/`<=`, initial register K / K-1), must be the text that
+    # EncodeModel.{simd_letters, simd_blocks, rescan, error_nonzero, encode_into_simd} transcribe.
+    holes = re.sub(r"whilei\+STRIDE(<=|<)l\{", "whilei+STRIDE@CMP@l{", nb, count=1)
+    holes = re.sub(r"_set1_epi8\(\(?A::K::USIZE(-1)?\)?asi8\);", "_set1_epi8(@INIT@);", holes, count=1)
+    want = KERNEL_TEXT[stride_ty]
+    if holes != want:
+        k = next((j for j in range(min(len(holes), len(want))) if holes[j] != want[j]), min(len(holes), len(want)))
+        raise ParseError("%s: body differs from the modelled text at offset %d: source %r, model %r"
+                         % (fname, k, holes[max(0, k - 30):k + 50], want[max(0, k - 30):k + 50]))
     return dict(strict=strict, init_minus_one=init_minus_one)
+
+
+KERNEL_TEXT = {
+    "__m256i": (
+        "constSTRIDE:usize=std::mem::size_of::<__m256i>();letalphabet=A::as_str().as_bytes();"
+        "letg=Pipeline::<A,_>::generic();letl=seq.len();assert_eq!(seq.len(),dst.len());unsafe{letmuti=0;"
+        "letmutsrc_ptr=seq.as_ptr();letmutdst_ptr=dst.as_mut_ptr();letmuterror=_mm256_setzero_si256();"
+        "whilei+STRIDE@CMP@l{letletters=_mm256_loadu_si256(src_ptras*const__m256i);"
+        "letmutencoded=_mm256_set1_epi8(@INIT@);letmutunknown=_mm256_set1_epi8(0xFF);"
+        "forain0..A::K::USIZE{letindex=_mm256_set1_epi8(aasi8);letascii=_mm256_set1_epi8(alphabet[a]asi8);"
+        "letm=_mm256_cmpeq_epi8(letters,ascii);encoded=_mm256_blendv_epi8(encoded,index,m);"
+        "unknown=_mm256_andnot_si256(m,unknown);}error=_mm256_or_si256(error,unknown);"
+        "_mm256_storeu_si256(dst_ptras*mut__m256i,encoded);src_ptr=src_ptr.add(STRIDE);dst_ptr=dst_ptr.add(STRIDE);"
+        "i+=STRIDE;}if_mm256_testz_si256(error,error)!=1{forsinseq.iter(){A::Symbol::from_ascii(*s)?;}}"
+        "ifi<l{g.encode_into(&seq[i..],&mutdst[i..])?;}}Ok(())"),
+    "__m128i": (
+        "constSTRIDE:usize=std::mem::size_of::<__m128i>();letalphabet=A::as_str().as_bytes();"
+        "letg=Pipeline::<A,_>::generic();letl=seq.len();assert_eq!(seq.len(),dst.len());unsafe{letmuti=0;"
+        "letmutsrc_ptr=seq.as_ptr();letmutdst_ptr=dst.as_mut_ptr();letmuterror=_mm_setzero_si128();"
+        "whilei+STRIDE@CMP@l{letletters=_mm_loadu_si128(src_ptras*const__m128i);"
+        "letmutencoded=_mm_set1_epi8(@INIT@);letmutunknown=_mm_set1_epi8(0xFF);"
+        "forain0..A::K::USIZE{letindex=_mm_set1_epi8(aasi8);letascii=_mm_set1_epi8(alphabet[a]asi8);"
+        "letm=_mm_cmpeq_epi8(letters,ascii);"
+        "encoded=_mm_or_si128(_mm_andnot_si128(m,encoded),_mm_and_si128(m,index));"
+        "unknown=_mm_andnot_si128(m,unknown);}error=_mm_or_si128(error,unknown);"
+        "_mm_storeu_si128(dst_ptras*mut__m128i,encoded);src_ptr=src_ptr.add(STRIDE);dst_ptr=dst_ptr.add(STRIDE);"
+        "i+=STRIDE;}letmutx:[u8;16]=[0;16];_mm_storeu_si128(x.as_mut_ptr()as*mut__m128i,error);"
+        "ifx.iter().any(|&x|x!=0){forxinseq.iter(){let_=A::Symbol::from_ascii(*x)?;}}"
+        "ifi<l{g.encode_into(&seq[i..],&mutdst[i..])?;}}Ok(())"),
+}
+
+
+# encode_into_neon (arm/aarch64 only, never compiled or run on the x86_64 host): the model
+# EncodeInst.neon_params is tied to it by the whole normalised body only.
+NEON_TEXT = (
+        'letalphabet=A::as_str().as_bytes();letg=Pipeline::<A,_>::generic();letl=seq.len();assert_eq!(seq.len'
+        '(),dst.len());unsafe{letmuti=0;letmutsrc_ptr=seq.as_ptr();letmutdst_ptr=dst.as_mut_ptr();letmuterror'
+        '=uint8x16x4_t(vdupq_n_u8(0),vdupq_n_u8(0),vdupq_n_u8(0),vdupq_n_u8(0));whilei+std::mem::size_of::<ui'
+        'nt8x16_t>()*4<l{letletters=vld1q_u8_x4(src_ptr);letmutencoded=uint8x16x4_t(vdupq_n_u8(0x00),vdupq_n_'
+        'u8(0x00),vdupq_n_u8(0x00),vdupq_n_u8(0x00),);letmutunknown=uint8x16x4_t(vdupq_n_u8(0xFF),vdupq_n_u8('
+        '0xFF),vdupq_n_u8(0xFF),vdupq_n_u8(0xFF),);forain0..A::K::USIZE{letindex=vdupq_n_u8(aasu8);letascii=v'
+        'dupq_n_u8(alphabet[a]);letm=uint8x16x4_t(vceqq_u8(letters.0,ascii),vceqq_u8(letters.1,ascii),vceqq_u'
+        '8(letters.2,ascii),vceqq_u8(letters.3,ascii),);encoded.0=vbslq_u8(m.0,index,encoded.0);unknown.0=van'
+        'dq_u8(unknown.0,vmvnq_u8(m.0));encoded.1=vbslq_u8(m.1,index,encoded.1);unknown.1=vandq_u8(unknown.1,'
+        'vmvnq_u8(m.1));encoded.2=vbslq_u8(m.2,index,encoded.2);unknown.2=vandq_u8(unknown.2,vmvnq_u8(m.2));e'
+        'ncoded.3=vbslq_u8(m.3,index,encoded.3);unknown.3=vandq_u8(unknown.3,vmvnq_u8(m.3));}error.0=vorrq_u8'
+        '(error.0,unknown.0);error.1=vorrq_u8(error.1,unknown.1);error.2=vorrq_u8(error.2,unknown.2);error.3='
+        'vorrq_u8(error.3,unknown.3);vst1q_u8_x4(dst_ptras*mutu8,encoded);src_ptr=src_ptr.add(std::mem::size_'
+        'of::<uint8x16_t>()*4);dst_ptr=dst_ptr.add(std::mem::size_of::<uint8x16_t>()*4);i+=std::mem::size_of:'
+        ':<uint8x16_t>()*4;}leterror64=vreinterpretq_u64_u8(vorrq_u8(vorrq_u8(error.0,error.1),vorrq_u8(error'
+        '.2,error.3),));ifvgetq_lane_u64(error64,0)!=0||vgetq_lane_u64(error64,1)!=0{foriin0..l{A::Symbol::fr'
+        'om_ascii(seq[i])?;}}g.encode_into(&seq[i..],&mutdst[i..])?;}Ok(())')
+NEON_WRAPPER = ('#[cfg(any(target_arch="arm",target_arch="aarch64"))]unsafe{returnencode_into_neon::<A>(seq,dst);};'
+                '#[cfg(not(any(target_arch="arm",target_arch="aarch64")))]{panic!(')
+
+
+def check_neon(src):
+    errors = []
+    try:
+        nb = norm(find_block(src, r"\bfn\s+encode_into_neon\b[^{]*\{", "fn encode_into_neon"))
+        if nb != NEON_TEXT:
+            k = next((j for j in range(min(len(nb), len(NEON_TEXT))) if nb[j] != NEON_TEXT[j]), min(len(nb), len(NEON_TEXT)))
+            errors.append("encode_into_neon: body differs from the modelled text at offset %d: source %r, model %r"
+                          % (k, nb[max(0, k - 30):k + 50], NEON_TEXT[max(0, k - 30):k + 50]))
+        wb = find_fn(find_block(src, r"\bimpl\s+Neon\s*\{", "impl Neon"), "encode_into", "impl Neon")
+        if wb is None or not norm(wb).startswith(NEON_WRAPPER):
+            errors.append("Neon::encode_into is not a plain call of encode_into_neon: %r" % (wb,))
+    except ParseError as e:
+        errors.append("neon.rs: %s" % e)
+    return errors
 
 
 def check_bodies(seq_src, mod_src):
@@ -535,6 +615,9 @@ def check_bodies(seq_src, mod_src):
         (seq_src, r"\bimpl\s*<\s*A\s*:\s*Alphabet\s*>\s*Display\s+for\s+EncodedSequence\s*<\s*A\s*>\s*\{", "fmt",
          "impl Display for EncodedSequence", ["forcinself.data.iter(){f.write_char(c.as_char())?;}Ok(())"],
          "EncodeModel.display / to_string"),
+        (seq_src, r"\bimpl\s*<\s*A\s*:\s*Alphabet\s*>\s*AsRef\s*<\s*\[\s*A::Symbol\s*\]\s*>\s*for\s+EncodedSequence\s*<\s*A\s*>\s*\{",
+         "as_ref", "impl AsRef<[A::Symbol]> for EncodedSequence", ["self.data.as_slice()", "&self.data"],
+         "the harness reading the symbols of an EncodedSequence"),
         (mod_src, r"\bpub\s+trait\s+Encode\s*<\s*A\s*:\s*Alphabet\s*>\s*\{", "encode_raw", "trait Encode",
          ["lets=seq.as_ref();letmutbuffer=Vec::with_capacity(s.len());unsafe{buffer.set_len(s.len())};"
           "matchself.encode_into(s,&mutbuffer){Ok(_)=>Ok(buffer),Err(e)=>Err(e),}"], "EncodeModel.encode_raw"),
@@ -617,6 +700,13 @@ def translate():
         for k, f, ty in (("avx2", "encode_into_avx2", "__m256i"), ("sse2", "encode_into_sse2", "__m128i")):
             ksrc = strip_comments(open(os.path.join(REPO, "lightmotif/src/pli/platform/%s.rs" % k)).read())
             kernels[k] = parse_kernel(ksrc, f, ty)
+            # the safe wrapper `impl Avx2 / Sse2 { pub fn encode_into }` only calls the kernel
+            B = k.capitalize()
+            wb = find_fn(find_block(ksrc, r"\bimpl\s+%s\s*\{" % B, "impl " + B), "encode_into", "impl " + B)
+            want_w = ('#[cfg(any(target_arch="x86",target_arch="x86_64"))]unsafe{%s::<A>(seq,dst)}'
+                      '#[cfg(not(any(target_arch="x86",target_arch="x86_64")))]panic!(' % f)
+            if wb is None or not norm(wb).startswith(want_w):
+                errors.append("%s::encode_into is not a plain call of %s: %r" % (B, f, wb))
         # pli/mod.rs: the SSE2 and AVX2 pipelines call their own kernel, the generic one the trait default
         msrc = norm(strip_comments(open(os.path.join(REPO, "lightmotif/src/pli/mod.rs")).read()))
         for b in ("Sse2", "Avx2"):
@@ -626,6 +716,7 @@ def translate():
                 errors.append("pli/mod.rs: Pipeline<A,%s>::encode_into is not `%s::encode_into::<A>(seq.as_ref(), dst)`" % (b, b))
         if "impl<A:Alphabet>Encode<A>forPipeline<A,Generic>{}" not in msrc:
             errors.append("pli/mod.rs: Pipeline<A,Generic> overrides Encode methods")
+        errors += check_neon(strip_comments(open(os.path.join(REPO, "lightmotif/src/pli/platform/neon.rs")).read()))
         errors += check_bodies(strip_comments(open(os.path.join(REPO, "lightmotif/src/seq.rs")).read()),
                                strip_comments(open(os.path.join(REPO, "lightmotif/src/pli/mod.rs")).read()))
     except (ParseError, OSError) as e:
